@@ -104,7 +104,17 @@ func genC12(tier, out string, sum *Summary) {
 				withNulls[i] = json.Number(strconv.Itoa(i))
 			}
 		}
+		// a string in which every other character is U+FFFD itself (valid text, three bytes)
+		rs2 := append([]rune{}, rs...)
+		for i := range rs2 {
+			if i%2 == 1 || n == 1 {
+				rs2[i] = 0xfffd
+			}
+		}
 		targets := []any{arr, string(rs), ascii, withNulls}
+		if n > 0 {
+			targets = append(targets, string(rs2))
+		}
 		if n == 0 {
 			// a slice of anything else is null, never an error
 			targets = append(targets, map[string]any{"a": json.Number("1")}, json.Number("5"), true, nil, map[string]any{})
@@ -152,6 +162,28 @@ func genC12(tier, out string, sum *Summary) {
 						}
 					}
 				}
+			}
+		}
+	}
+	// step 0 is an invalid-value error wherever the slice is written (and nothing else about a slice is an error)
+	for _, ctx := range []string{"%s", "a%s", "@%s", "length(a%s)", "join(', ', a%s)", "not_null(a[5], a%s)", "[a%s]", "{k: a%s}", "a[?b%s]", "let $v = a%s in $v", "a | %s", "a[*]%s", "(a%s)", "abs(length(%s))", "a%s || b", "!a%s", "map(&%s, a)", "sort_by(a, &b%s)", "a[0]%s", "a.b%s", "a%s.b", "a%s[0]", "a[?@%s == `1`]"} {
+		for _, sl := range []string{"[::0]", "[1:3:0]", "[::-0]", "[:5:0]", "[-1::00]", "[0:0:0]"} {
+			e := strings.Replace(ctx, "%s", sl, 1)
+			for _, doc := range []any{jsonDoc(`{"a": [1, 2, 3], "b": "xyz"}`), nil} {
+				o := search(e, doc)
+				sum.count("step-zero/" + o.Kind)
+				if !(o.Kind == "err" && len(o.Cats) == 1 && o.Cats[0] == "CInvalidValue") {
+					sum.direct("step-zero", e, doc, "a slice with step 0 is an invalid-value error, got "+describe(o))
+				}
+			}
+			if oc := compileObs(e); !(oc.Kind == "err" && len(oc.Cats) == 1 && oc.Cats[0] == "CInvalidValue") {
+				sum.direct("step-zero", e, nil, "Compile: a slice with step 0 is an invalid-value error, got "+describe(oc))
+			}
+		}
+		for _, sl := range []string{"[::1]", "[1:3:-1]", "[5:1]", "[::9223372036854775807]", "[-9223372036854775808::-9223372036854775808]"} {
+			e := strings.Replace(ctx, "%s", sl, 1)
+			if oc := compileObs(e); oc.Kind != "val" {
+				sum.direct("step-zero", e, nil, "a slice with a non-zero step compiles, got "+describe(oc))
 			}
 		}
 	}
